@@ -15,6 +15,39 @@ import math
 APPLIED = []
 
 
+def unwrap_lru():
+    """S2: replace every functools.lru_cache wrapper in rich.* by the function it wraps.
+
+    The C-level cache keeps results across CrossHair iterations (NotDeterministic) and hashes symbolic arguments.
+    """
+    import functools
+    import pkgutil
+    import sys
+    import rich
+    lru = type(functools.lru_cache()(lambda: 0))
+    for m in list(pkgutil.iter_modules(rich.__path__)):
+        name = "rich." + m.name
+        if name not in sys.modules:
+            if m.name.startswith("__") or m.name in ("jupyter", "diagnose"):
+                continue
+            try:
+                importlib.import_module(name)
+            except Exception:
+                continue
+        mod = sys.modules[name]
+        for k, v in list(vars(mod).items()):
+            if isinstance(v, lru) and getattr(v, "__module__", None) == name:
+                setattr(mod, k, v.__wrapped__)
+            elif inspect.isclass(v) and v.__module__ == name:
+                for ck, cv in list(vars(v).items()):
+                    if isinstance(cv, lru):
+                        setattr(v, ck, cv.__wrapped__)
+                    elif isinstance(cv, classmethod) and isinstance(cv.__func__, lru):
+                        setattr(v, ck, classmethod(cv.__func__.__wrapped__))
+                    elif isinstance(cv, staticmethod) and isinstance(cv.__func__, lru):
+                        setattr(v, ck, staticmethod(cv.__func__.__wrapped__))
+
+
 def apply(real_floats: bool = True, no_cell_cache: bool = True, wrap_bools: bool = True):
     from crosshair.libimpl import builtinslib as _bl
     from crosshair import core as _core
@@ -49,6 +82,10 @@ def apply(real_floats: bool = True, no_cell_cache: bool = True, wrap_bools: bool
         if cells.cell_len.__defaults__ and len(cells.cell_len.__defaults__) == 1:
             cells.cell_len.__defaults__ = (_NoCache(),)
         APPLIED.append("S1")
+
+    if "S2" not in APPLIED:
+        unwrap_lru()
+        APPLIED.append("S2")
 
     if wrap_bools and "S4" not in APPLIED:
         for m in ["rich.text", "rich.segment", "rich.style", "rich.measure", "rich.color",
